@@ -249,7 +249,13 @@ AggSeries1(D, q, g, desc, dv) ==
       InB(r, b) == q.w = NONE \/ BucketD(r.t, q.w, dv) = b
       P(b, c)   == Pts({r \in S : InB(r, b)}, q.calls[c].f, dv)
       anyfl == desc /\ "firstlast_any" \in dv
-      raw   == [c \in 1..nc |-> [i \in 1..Len(bs) |-> CallCell(q.calls[c].fn, P(bs[i], c), anyfl)]]
+      \* deviation model of F-C08-2 only: every point of the group, whatever its time stamp
+      SAll  == {r \in D.rows : Where([q EXCEPT !.tlo = NONE, !.thi = NONE], r) /\ GroupKey(r, q.dims) = g}
+      PAll(c) == Pts(SAll, q.calls[c].f, dv)
+      Cell(b, c) == LET fn == q.calls[c].fn
+                    IN IF anyfl /\ fn \in {"first", "last"} /\ P(b, c) # {}
+                         THEN CallCell(fn, PAll(c), TRUE) ELSE CallCell(fn, P(b, c), FALSE)
+      raw   == [c \in 1..nc |-> [i \in 1..Len(bs) |-> Cell(bs[i], c)]]
       mode  == IF q.w = NONE THEN "none" ELSE q.fill
       col0  == [c \in 1..nc |-> FillColD(raw[c], mode, q.fillv, q.calls[c].fn = "count", dv)]
       \* deviation model of F-C08-5 only: a descending filled GROUP BY tags, time() answer may lose values
@@ -261,7 +267,8 @@ AggSeries1(D, q, g, desc, dv) ==
       HasVal(i) == \E c \in 1..nc : raw[c][i] # NullCell
       sole  == q.w = NONE /\ nc = 1 /\ q.calls[1].fn \in Selectors
       TimeOf(i) == IF q.w # NONE THEN <<bs[i]>>
-                   ELSE IF sole THEN CallTimes(q.calls[1].fn, P(bs[i], 1), anyfl)
+                   ELSE IF sole THEN (IF anyfl THEN CallTimes(q.calls[1].fn, PAll(1), TRUE)
+                                               ELSE CallTimes(q.calls[1].fn, P(bs[i], 1), FALSE))
                    ELSE <<IF q.tlo = NONE THEN EPOCH ELSE q.tlo>>
       keep  == SelectSeq([i \in 1..Len(bs) |-> i], LAMBDA i : mode # "none" \/ HasVal(i))
   IN [tags |-> TagsOfKey(q.dims, g),
